@@ -205,14 +205,28 @@ func c12PickShape(f c12Family) c12Shape {
 			all = append(all, sh)
 		}
 	}
+	// order by number of HTLCs (cost grows with it) so that dealing the
+	// shapes round-robin gives shards of similar size
+	var sorted []c12Shape
+	for fill := 0; fill <= f.maxFill; fill++ {
+		for _, sh := range all {
+			n := 0
+			for c := 0; c < 3; c++ {
+				n += sh.cnt[c][0] + sh.cnt[c][1]
+			}
+			if n == fill {
+				sorted = append(sorted, sh)
+			}
+		}
+	}
 	part := vChoice("part", f.parts)
-	j := vChoice("shape", (len(all)+f.parts-1)/f.parts)
+	j := vChoice("shape", (len(sorted)+f.parts-1)/f.parts)
 	i := j*f.parts + part
-	if i >= len(all) {
+	if i >= len(sorted) {
 		vAssume(false)
 	}
 
-	return all[i]
+	return sorted[i]
 }
 
 // c12NewWorld builds the symbolic world. Shape (which slots hold an HTLC,
@@ -473,11 +487,12 @@ func c12GoOnChain(f c12Family) {
 }
 
 // quick: one slot per (commitment, direction), at most 3 HTLCs in total.
-// thorough: all shapes with one slot each (up to 6 HTLCs), and two slots per
-// (commitment, direction) with at most C12_N2FILL HTLCs in total.
+// thorough: one slot each with at most C12_FULLFILL HTLCs in total (6 = all
+// shapes), and two slots per (commitment, direction) with at most C12_N2FILL
+// HTLCs in total (only the shapes that contain a pair).
 var (
 	c12Quick = c12Family{n: 1, maxFill: 3, parts: C12_QPARTS}
-	c12Full1 = c12Family{n: 1, maxFill: 6, parts: C12_TPARTS}
+	c12Full1 = c12Family{n: 1, maxFill: C12_FULLFILL, parts: C12_TPARTS}
 	c12Two   = c12Family{n: 2, maxFill: C12_N2FILL, needTwo: true, parts: C12_TPARTS}
 )
 
